@@ -362,7 +362,9 @@ META = {
               "ChannelFile over a real Transport/Channel pair with recorded chunking."),
     "note": ("Binary and text mode (text mode = same bytes, readline result decoded by CPython; text-mode test "
              "streams are ASCII). NOT covered: universal-newline mode 'U' (CR/CRLF translation, newlines attribute) — "
-             "neither modelled nor claimed; behaviour when the underlying _read/_write raises (the model mirrors it "
+             "neither modelled nor claimed; the seekable-file branches added to file.py for C27 (flush before read, "
+             "read-ahead dropped before a write) are in the model but inactive for a stream (seekable() is False); "
+             "behaviour when the underlying _read/_write raises (the model mirrors it "
              "but the C42 stream never raises). Theorems assume _DEFAULT_BUFSIZE >= 1 and that _write accepts at "
              "least one byte per call (a stream accepting 0 bytes makes _write_all spin; modelled as Err.stall). "
              "Trusted: Lean kernel + 3 standard axioms; the correspondence harness and generators; io.BytesIO as "
